@@ -24,7 +24,7 @@ import streams
 import vlib
 from vlib import log, Inconclusive
 
-SEQ_CONSTS = {"Caps1": [1, 2], "MaxItems1": 3, "CapsN": [1, 2], "MaxItemsN": 2, "MaxItems3": 2, "ErrItems1": True, "ErrItemsN": True, "MaxLen": 14}
+SEQ_CONSTS = {"Caps1": [1, 2], "MaxItems1": 3, "CapsN": [1, 2], "MaxItemsN": 2, "MaxItems3": 1, "ErrItems1": True, "ErrItemsN": True, "MaxLen": 14}
 
 
 def has_forwarder(nodes):
@@ -54,8 +54,8 @@ def c08_tier(tier, rnd):
                 "mc_extra": 10, "mc_extra_nodes": 6, "mc_timeout": 150, "seq_shapes": 12, "seq_num": 250, "conc": 400, "race": 150,
                 "repro": 20, "repro_cases": 8, "max_rej": 3, "mc_sim": None}
     return {"shape_bounds": (3, 2, 9), "big": (6,),
-            "mc_consts": {"Caps1": [0, 1, 2], "MaxItems1": 3, "CapsN": [0, 1], "MaxItemsN": 2, "MaxItems3": 2, "ErrItems1": True, "ErrItemsN": False},
-            "mc_extra": 10 ** 6, "mc_extra_nodes": 7, "mc_timeout": 1500, "seq_shapes": 80, "seq_num": 1500, "conc": 2500, "race": 800,
+            "mc_consts": {"Caps1": [0, 1, 2], "MaxItems1": 3, "CapsN": [0, 1], "MaxItemsN": 2, "MaxItems3": 1, "ErrItems1": True, "ErrItemsN": False},
+            "mc_extra": 50, "mc_extra_nodes": 6, "mc_timeout": 1500, "seq_shapes": 30, "seq_num": 1500, "conc": 2500, "race": 800,
             "repro": 40, "repro_cases": 30, "max_rej": 12, "mc_sim": "num=3000"}
 
 
@@ -126,7 +126,7 @@ def c08(tier, repo=None):
 
     seq_ok = [s for s in shapes if not has_forwarder(s["nodes"]) and any(n["k"] == "pipe" for n in s["nodes"])]
     rnd.shuffle(seq_ok)
-    seqc, srun = streams.gen_seq_cases(seq_ok[:P["seq_shapes"]], SEQ_CONSTS, num=P["seq_num"], depth=16, seed=vlib.SEED, workers=2)
+    seqc, srun = streams.gen_seq_cases(seq_ok[:P["seq_shapes"]], SEQ_CONSTS, num=P["seq_num"], depth=16, seed=vlib.SEED, workers=2, timeout=900)
     log("  %d sequential histories sampled by TLC (StreamsSeq -simulate, %.0fs)" % (len(seqc), srun.wall_s))
     concc = streams.conc_cases(shapes, rnd, P["conc"])
     cases = seqc + concc
@@ -238,8 +238,8 @@ def c08(tier, repo=None):
 def c19_tier(tier):
     if tier == "quick":
         return {"gens": [("dag", 3, 6), ("pregel", 3, 6), ("wf", 3, 6)], "per_mode": 400, "sim": [], "mc_shapes": 5, "mc_timeout": 170}
-    return {"gens": [("dag", 3, 6), ("pregel", 3, 6), ("wf", 3, 6)], "per_mode": 1300,
-            "sim": [("dag", 4, 8), ("pregel", 4, 8), ("wf", 4, 8)], "mc_shapes": 40, "mc_timeout": 1200}
+    return {"gens": [("dag", 3, 6), ("pregel", 3, 6), ("wf", 3, 6), ("dag", 4, 7), ("pregel", 4, 7), ("wf", 4, 7)], "per_mode": 1300,
+            "sim": [], "mc_shapes": 40, "mc_timeout": 1200}
 
 
 def classify19(sc, reason, obs):
@@ -252,6 +252,7 @@ def classify19(sc, reason, obs):
             blocked = json.loads(ln)["blocked"]
     frame = parked[0] if parked else "-"
     frame = frame.replace("compose.vflProduce", "producer").replace("compose.vflTransform", "producer")
+    frame = frame.replace("(*", "").replace(")", "").replace("<", "@")          # file-name friendly: schema.stream.send@producer
     if sc["mode"] == "wf" and sc["branch"] and sc["branch"][0]["from"] in blocked:
         b = sc["branch"][0]
         return "%s:%s/%s" % (reason, frame, "wf-branch-target-also-data-successor" if b.get("bdata") else "wf-branch-routed-copy-without-data-successor")
